@@ -13,7 +13,7 @@ CASE_TIMEOUT = 20
 RULE = ('cases: 1-4 named inputs, each a scalar or a unique-key table over 1 or 2 key columns (`on` in any order, table columns in any order; keys from a small universe of strings / ints / '
         'floats / None so that overlap, disjointness and emptiness all occur; 1 vs 1.0 across tables), value column named after the input, '
         '"data", or a single other column, or with extra columns; any subset of inputs named in defaults (values 0-8 or None); previously '
-        'computed values supplied as a data table over any keys, expiry absent / scalar / table with cells {2000-01-01, 2999-01-01, None} and, relative to the day of the run, today 00:00 (= dt(0)), later today, today +- 1 microsecond, yesterday, tomorrow (an expiry DATE equal to today is not in the past: recomputed); scalar inputs are None / ints / LIST- or TUPLE-valued (length 0-3 or exactly the number of rows); defaults= is spelled None / {} / {name: v} and f has python keyword defaults on some parameters; streams with the same table OBJECT passed for two parameters and with a second call on the same instance reusing the tables under other parameter names; after every call every input table must be unchanged (columns, order, identity of each cell); 40% of the cases go through the dict-output path: f declared with 1-3 named outputs and returning a dict, one cache table per output, each supplied or not; an exhaustive stream over all overlap patterns of two tables on 3 keys x defaults x expiry '
+        'computed values supplied as a data table over any keys, expiry absent / scalar / table with cells {2000-01-01, 2999-01-01, None} and, relative to the day of the run, today 00:00 (= dt(0)), later today, today +- 1 microsecond, yesterday, tomorrow (an expiry DATE equal to today is not in the past: recomputed); scalar inputs are None / ints / LIST- or TUPLE-valued (length 0-3 or exactly the number of rows); defaults= is spelled None / {} / {name: v} and f has python keyword defaults on some parameters, spelled as positional defaults, keyword-only defaults (def f(a, *, b=5)) or functools.partial keywords; 20% of the functions also accept **extras (and must be handed nothing undeclared); streams with the same table OBJECT passed for two parameters and with a second call on the same instance reusing the tables under other parameter names; after every call every input table must be unchanged (columns, order, identity of each cell); 40% of the cases go through the dict-output path: f declared with 1-3 named outputs and returning a dict, one cache table per output, each supplied or not; an exhaustive stream over all overlap patterns of two tables on 3 keys x defaults x expiry '
         'assignments. f records (key, arguments) of every call and returns the decimal digits of its arguments (output i: + 10000 i). Compared inside Coq: the '
         'returned scalar / None / table rows IN ORDER (key columns up to ==) and the multiset of calls. The oracle re-derives from the '
         'property text the expected key set, the order, each value and the exact set of calls. non-trivial = at least one table, and some key '
@@ -459,15 +459,26 @@ def impl(case):
     names = [a['name'] for a in case['args']]
     outs = case.get('outputs')
     on = case['on']
-    calls = []
-    def rec(key, args):
+    calls = []; extras_seen = []
+    def rec(key, args, extras=None):
         calls.append((key, list(args)))
+        if extras: extras_seen.append(sorted(extras))
         v = fvals(case, args)
         return dict(zip(outs, v)) if outs else v[0]
     plain = [n for n in names if not any(a['name'] == n and 'pydefault' in a for a in case['args'])]
     withd = [(a['name'], a['pydefault']['v']) for a in case['args'] if 'pydefault' in a]        # f's own keyword defaults
-    src = 'lambda %s: rec((%s), (%s,))' % (', '.join(plain + ['%s=%r' % nd for nd in withd] + ['%s=None' % c for c in on]), ''.join(c + ',' for c in on), ', '.join(names))
-    f = eval(src, {'rec': rec})
+    fsig = case.get('fsig')
+    body = 'rec((%s), (%s,)%s)' % (''.join(c + ',' for c in on), ', '.join(names), ', extras' if fsig == 'varkw' else '')
+    keyp = ['%s=None' % c for c in on]
+    if fsig == 'kwonly':        # every default is a keyword-only default: def f(a, *, b=5, k=None)
+        src = 'lambda %s: %s' % (', '.join(plain + ['*'] + ['%s=%r' % nd for nd in withd] + keyp), body)
+        f = eval(src, {'rec': rec})
+    elif fsig == 'partial':     # the defaults are the keywords of a functools.partial
+        src = 'lambda %s: %s' % (', '.join(plain + [n for n, _ in withd] + keyp), body)
+        f = functools.partial(eval(src, {'rec': rec}), **dict(withd)) if withd else eval(src, {'rec': rec})
+    else:                        # positional defaults; 'varkw': the function also accepts **extras and must not be handed any
+        src = 'lambda %s: %s' % (', '.join(plain + ['%s=%r' % nd for nd in withd] + keyp + (['**extras'] if fsig == 'varkw' else [])), body)
+        f = eval(src, {'rec': rec})
     if outs: f.output = list(outs)          # a function declared with named outputs: handled by _dict_output
     opts = {}
     if case.get('oii'):          # output_is_input: whether f is SHOWN its previous output; must not change which rows are kept
@@ -475,7 +486,7 @@ def impl(case):
         opts['output_is_input'] = {'false': False, 'data': first, 'other': 'something_else', 'list_data': [first], 'list_other': ['zz']}[case['oii']]
     p = perdictable(f, on=(on[0] if case.get('on_str') and len(on) == 1 else list(on)), defaults=defaults, renames=renames, **opts)
     # signature extension: the lifted function also accepts expiry and one argument per output (the previously computed values)
-    spec_args = list(p.fullargspec.args)
+    spec_args = list(p.fullargspec.args) + list(p.fullargspec.kwonlyargs or [])
     missing = [n for n in names + ['expiry'] + (list(outs) if outs else ['data']) if n not in spec_args]
     if missing:
         return {'status': 'ok', 'obs': ['ERR', 'signature'], 'viol': 'the lifted signature %s lacks %s' % (spec_args, missing)}
@@ -492,6 +503,8 @@ def impl(case):
         except Exception as e:
             return {'status': err_name(e), 'obs': ['ERR', err_name(e)], 'viol': 'perdictable raised %s: %s (call %d)' % (type(e).__name__, str(e)[:150], len(results) + 1)}
         res = judge(rcase, r, rin, list(calls))
+        if extras_seen and not res['viol']:
+            res['viol'] = 'f(%s, **extras) is applied to the key\'s values only, but it was also handed the undeclared keywords %s' % (', '.join(names), extras_seen[0])
         bad = modified(inputs, snap, exempt)
         if bad and not res['viol']: res['viol'] = 'the call modified the input table(s) it was given (columns before / after): %s' % bad
         results.append(res)
@@ -703,6 +716,8 @@ def decorate(rng, case, force=None):
     cached = case.get('data') is not None or bool(case.get('caches'))
     if rng.random() < (0.45 if cached else 0.1):
         case['oii'] = rng.choice(['false', 'false', 'data', 'other', 'list_data', 'list_other'])
+    # ---- the shape of f's signature: positional defaults (default), **extras, keyword-only defaults, functools.partial keywords
+    case['fsig'] = rng.choice([None, None, 'varkw', 'kwonly', 'partial']) if force != 'defaults' else rng.choice([None, 'kwonly', 'kwonly', 'partial', 'partial'])
     # ---- the same table object passed for two parameters
     tabs = [a for a in args if a['kind'] == 'table' and a.get('layout', 'named') in ('named', 'data', 'other')]
     if tabs and len(args) >= 2 and (force == 'same' or rng.random() < 0.08):
